@@ -27,6 +27,7 @@ func main() {
 	dumpPure := flag.Bool("dumppure", false, "debug: collapse pure diamonds")
 	noEvidence := flag.Bool("no-evidence", false, "do not write evidence (used for mutant runs)")
 	list := flag.Bool("list", false, "print every obligation")
+	goarch := flag.String("goarch", "", "load the repository for this GOARCH (default: host)")
 	flag.Parse()
 	start := time.Now()
 	if *tier == "" {
@@ -38,7 +39,7 @@ func main() {
 	seed, _ := strconv.Atoi(os.Getenv("VERIF_SEED"))
 
 	if *dump != "" {
-		p, err := LoadRepo(*repo, "")
+		p, err := LoadRepo(*repo, *goarch)
 		if err != nil {
 			fmt.Println("load:", err)
 			os.Exit(2)
@@ -52,7 +53,7 @@ func main() {
 	}
 	if *prop == "all" {
 		// convenience mode (not registered in MANIFEST): one load, every property's rules, no controls
-		p, err := LoadRepo(*repo, "")
+		p, err := LoadRepo(*repo, *goarch)
 		if err != nil {
 			fmt.Println("CHECKER FAILURE: load failed:", err)
 			os.Exit(1)
@@ -100,7 +101,7 @@ func main() {
 				code = checkerFailure(evDir, *prop, *tier, seed, start, fmt.Sprintf("panic in checker: %v\n%s", r, debug.Stack()))
 			}
 		}()
-		p, err := LoadRepo(*repo, "")
+		p, err := LoadRepo(*repo, *goarch)
 		if err != nil {
 			return checkerFailure(evDir, *prop, *tier, seed, start, "load failed: "+err.Error())
 		}
